@@ -1,3 +1,158 @@
-pub fn run_history(_seed: u64, _ops: u64, _mode: &str) -> String {
-    String::from("{\"k\":\"strstore\",\"res\":\"unsupported\"}")
+// C11(a): the intern table in isolation against a dictionary model, with hash functions chosen by
+// the harness so that growth happens at every size with long probe chains and full-hash collisions.
+use std::collections::HashMap;
+use std::fmt::Write;
+
+use yarel::vm::verif_strstore::Store;
+
+fn splitmix64(state: &mut u64) -> u64 {
+    *state = state.wrapping_add(0x9e37_79b9_7f4a_7c15);
+    let mut z = *state;
+    z = (z ^ (z >> 30)).wrapping_mul(0xbf58_476d_1ce4_e5b9);
+    z = (z ^ (z >> 27)).wrapping_mul(0x94d0_49bb_1331_11eb);
+    z ^ (z >> 31)
+}
+
+fn fnv(text: &str) -> u64 {
+    let mut hash: u64 = 2166136261;
+    for c in text.bytes() {
+        hash ^= c as u64;
+        hash = (hash as u128 * 16777619) as u64;
+    }
+    // the implementation hashes a str through Hash::hash, which appends 0xff
+    hash ^= 0xff;
+    hash = (hash as u128 * 16777619) as u64;
+    hash
+}
+
+/// hash of a text under the given mode; always a function of the text alone
+fn hash_of(mode: &str, text: &str) -> u64 {
+    let h = fnv(text);
+    if mode == "fnv" {
+        h
+    } else if mode == "const" {
+        12345
+    } else if let Some(k) = mode.strip_prefix("low") {
+        // the low k bits are equal for every key
+        let k: u32 = k.parse().unwrap_or(4);
+        (h << k) | 0x5
+    } else if let Some(g) = mode.strip_prefix("group") {
+        // groups of g distinct texts share one full hash
+        let g: u64 = g.parse().unwrap_or(4);
+        (h / g.max(1)).wrapping_mul(0x9e37_79b9_7f4a_7c15)
+    } else if mode == "wrap" {
+        // hashes at the very top of the range: probing must wrap around the table
+        u64::MAX - (h % 3)
+    } else if mode == "seq" {
+        // consecutive home slots: maximal primary clustering
+        h % 64
+    } else {
+        h
+    }
+}
+
+pub fn run_history(seed: u64, ops: u64, mode: &str) -> String {
+    let mut rng = seed ^ 0xabcdef;
+    let mut store = Store::new();
+    let mut model: HashMap<String, usize> = HashMap::new();
+    let mut keys: Vec<String> = Vec::new();
+    let mut problems: Vec<String> = Vec::new();
+    let mut audits = 0u64;
+    let mut growths = 0u64;
+    let mut max_capacity = 0usize;
+    let mut last_capacity = 0usize;
+    let mut gets_hit = 0u64;
+    let mut gets_miss = 0u64;
+    let mut inserts = 0u64;
+    let mut push = |problems: &mut Vec<String>, s: String| {
+        if problems.len() < 8 {
+            problems.push(s);
+        }
+    };
+    for op in 0..ops {
+        let r = splitmix64(&mut rng);
+        let fresh = keys.is_empty() || r % 100 < 55;
+        let text = if fresh {
+            format!("k{}-{}", keys.len(), r % 7)
+        } else if r % 100 < 85 {
+            keys[(r >> 8) as usize % keys.len()].clone()
+        } else {
+            format!("absent{}", r >> 40)
+        };
+        let hash = hash_of(mode, &text);
+        let found = store.get(hash, &text);
+        match (found, model.get(&text)) {
+            (Some(addr), Some(&expected)) => {
+                gets_hit += 1;
+                if addr != expected {
+                    push(&mut problems, format!("op {}: get({:?}) returned a different object than the one interned first", op, text));
+                }
+            }
+            (None, None) => {
+                gets_miss += 1;
+                if fresh || r % 2 == 0 {
+                    let addr = store.insert(hash, &text);
+                    inserts += 1;
+                    model.insert(text.clone(), addr);
+                    keys.push(text.clone());
+                    if store.get(hash, &text) != Some(addr) {
+                        push(&mut problems, format!("op {}: {:?} not found right after its insertion", op, text));
+                    }
+                }
+            }
+            (Some(_), None) => {
+                push(&mut problems, format!("op {}: get({:?}) found a string that was never interned", op, text));
+            }
+            (None, Some(_)) => {
+                push(&mut problems, format!("op {}: interned string {:?} is no longer found ({} entries)", op, text, model.len()));
+            }
+        }
+        let do_audit = op % 97 == 0 || op + 1 == ops;
+        let capacity_now = match store.audit() {
+            Ok((entries, capacity)) => {
+                if entries != model.len() {
+                    push(&mut problems, format!("op {}: table holds {} entries, model {}", op, entries, model.len()));
+                }
+                capacity
+            }
+            Err(what) => {
+                push(&mut problems, format!("op {}: audit: {}", op, what));
+                last_capacity
+            }
+        };
+        audits += 1;
+        if capacity_now != last_capacity {
+            growths += 1;
+            last_capacity = capacity_now;
+            // after every growth every key must still be found, at the same address
+            for (k, &addr) in model.iter() {
+                if store.get(hash_of(mode, k), k) != Some(addr) {
+                    push(&mut problems, format!("op {}: after growth to {} slots {:?} is lost or moved", op, capacity_now, k));
+                    break;
+                }
+            }
+        } else if do_audit {
+            let probe = &keys[(r >> 16) as usize % keys.len().max(1)..];
+            if let Some(k) = probe.first() {
+                if store.get(hash_of(mode, k), k) != model.get(k).copied() {
+                    push(&mut problems, format!("op {}: {:?} is lost or moved", op, k));
+                }
+            }
+        }
+        if capacity_now > max_capacity {
+            max_capacity = capacity_now;
+        }
+        if !problems.is_empty() && problems.len() >= 8 {
+            break;
+        }
+    }
+    let mut out = String::new();
+    let _ = write!(
+        out,
+        "{{\"k\":\"strstore\",\"mode\":\"{}\",\"ops\":{},\"inserted\":{},\"hits\":{},\"misses\":{},\"growths\":{},\"max_capacity\":{},\"audits\":{},\"problems\":",
+        mode, ops, inserts, gets_hit, gets_miss, growths, max_capacity, audits
+    );
+    crate::json_str_list(&mut out, &problems);
+    out.push('}');
+    out
 }
